@@ -57,7 +57,16 @@ def changing(item):
         e2e.write_project(root / "p", files)
         r = e2e.run(root / "p", ["--codemod-include", cid, "--dry-run"])
         ch = set(e2e.changed_files(r["report"]).get(cid, []))
-        return cid, [s for i, s in enumerate(snippets) if f"s{i:03d}.py" in ch], r["rc"]
+        # import statements the codemod adds (read off the diffs): used for the "import only in a nested scope" variant
+        added = set()
+        for res in (r["report"] or {}).get("results", []):
+            for cs in res["changeset"]:
+                for ln in cs["diff"].splitlines():
+                    if ln.startswith("+") and not ln.startswith("+++"):
+                        t = ln[1:].strip()
+                        if (t.startswith("import ") or (t.startswith("from ") and " import " in t)) and "(" not in t and "__future__" not in t:
+                            added.add(t)
+        return cid, [s for i, s in enumerate(snippets) if f"s{i:03d}.py" in ch], r["rc"], sorted(added)
     finally:
         shutil.rmtree(root, ignore_errors=True)
 
@@ -70,12 +79,16 @@ if extra.exists():
         h[k] = [s for s in v if s not in h[k]] + h[k]
 res = impl.pool_map(changing, list(h.items()))
 seeds = {}
+ADDED = {}
 for r in res:
     assert r[0] == "ok", r
-    cid, keep, rc = r[1]
+    cid, keep, rc, added = r[1]
+    if added:
+        ADDED[cid] = added
     keep.sort(key=len)
     prio = [x for x in EXTRA.get(cid, []) if x in keep]          # the hand-written corner shapes are always kept
     seeds[cid] = prio + [x for x in keep if x not in prio][: max(0, 14 - len(prio))]
     print(f"{cid}: {len(h[cid])} harvested, {len(keep)} changing, rc={rc}")
 (V / "harness" / "corpus" / "seeds.json").write_text(json.dumps(seeds, indent=0, sort_keys=True))
+(V / "harness" / "corpus" / "added_imports.json").write_text(json.dumps(ADDED, indent=0, sort_keys=True))
 print(len(seeds), "codemods,", sum(map(len, seeds.values())), "seeds")
